@@ -202,6 +202,11 @@ func TestPropDecode(t *testing.T) {
 			if m, ok := declareFewerFields(data, rapid.IntRange(0, 11).Draw(t, "k")); ok {
 				mut, name = m, "profile-declares-fewer-fields"
 			}
+		} else if kind == "pktline" && len(data) >= 4 && rapid.IntRange(0, 3).Draw(t, "lenprefix") == 0 {
+			// the 4-character length prefix of the first line replaced by text a lenient number
+			// parser might accept: signs, blanks, prefixes, upper case
+			pre := rapid.SampledFrom([]string{"-001", "-004", "+005", " 005", "0x05", "00-1", "-fff", "FFFF", "ffff", "0005", "1e01", "-000"}).Draw(t, "prefix")
+			mut, name = append([]byte(pre), data[4:]...), "pktline-length-prefix"
 		} else if rapid.IntRange(0, 3).Draw(t, "twice") == 0 {
 			var n2 string
 			mut, n2 = mutate(t, mut)
